@@ -116,7 +116,7 @@ def run(P: Program, R: Report, tier: str) -> None:
         for pr in results:
             if pr.kind == "raise":
                 continue
-            keep = lambda e: (e.kind == "construct" and e.depth == 0 and e.name in roles["node+"]) or (e.kind == "mut" and e.name == "add_edge" and e.depth <= 2)  # noqa: E731
+            keep = lambda e: (e.kind == "construct" and e.xdepth == 0 and e.name in roles["node+"]) or (e.kind == "mut" and e.name == "add_edge" and e.depth <= 2)  # noqa: E731
             for seq in pr.sequences(keep, extra=lambda e: tuple(sorted(x for x in e.pre["facts"] if x[0] == "item")) if e.kind == "construct" and e.pre else None):
                 adds = [e for e in seq if e.kind == "construct"]
                 edges = [e for e in seq if e.kind == "mut"]
